@@ -197,7 +197,6 @@ c18_extreme!(c18_extreme_retries_mindustry, mindustry_q, false);
 c18_extreme!(c18_t_extreme_retries_gs1, gs1, false);
 c18_extreme!(c18_t_extreme_retries_gs2, gs2, false);
 c18_extreme!(c18_t_extreme_retries_quake3, quake3, false);
-c18_extreme!(c18_t_extreme_retries_unreal2, unreal2_q, false);
 c18_extreme!(c18_t_extreme_retries_mc_bedrock, mc_bedrock, false);
 c18_extreme!(c18_t_extreme_retries_ffow, ffow_q, false);
 c18_extreme!(c18_t_extreme_retries_jc2m, jc2m_q, false);
